@@ -101,15 +101,125 @@ CycleRec(o) ==
      path    |-> [p \in 1 .. np |-> SinglePath(g, ESet(m, p - 1))],
      touched |-> [p \in 1 .. np |-> Mask(Touched(g, ESet(m, p - 1)))]]
 
+(* C05: division_connected.  Labeling number L in base R: vertex v has label digit v.   *)
+Lab(n, R, L) == [v \in 0 .. n - 1 |-> (L \div (R ^ v)) % R]
+RootsOpt(n, R, k) ==      \* sequences of optional vertices ({} = None)
+    CASE k = 1 -> [i \in 1 .. R |-> {}]
+      [] k = 2 -> [i \in 1 .. R |-> IF i = 1 THEN {n - 1} ELSE {}]
+      [] k = 3 -> [i \in 1 .. R |-> {((i - 1) * 2) % n}]
+      [] OTHER -> <<>>
+RootsJson(r) == [i \in DOMAIN r |-> IF r[i] = {} THEN -1 ELSE CHOOSE x \in r[i] : TRUE]
+DivBase == SmallGraphs(IF Quick THEN 3 ELSE 4) \o
+           << GraphObj("path5", PathG(5)), GraphObj("cycle5", CycleG(5)), GraphObj("star5", StarG(5)),
+              GraphObj("path3+isolated", G(5, <<<<0, 1>>, <<1, 2>>>>)),
+              GraphObj("square+chord", G(4, <<<<0, 1>>, <<1, 2>>, <<2, 3>>, <<0, 3>>, <<0, 2>>>>)),
+              GraphObj("path4", PathG(4)), GraphObj("empty4", G(4, <<>>)) >> \o
+           Grids(IF Quick THEN {<<1, 1>>, <<1, 3>>, <<2, 2>>, <<3, 1>>, <<2, 3>>}
+                 ELSE {<<1, 1>>, <<1, 2>>, <<1, 3>>, <<2, 2>>, <<3, 1>>, <<2, 3>>, <<3, 2>>, <<1, 4>>})
+DivObjs ==
+    LET combos == {<<i, R, k, ae>> : i \in DOMAIN DivBase, R \in 1 .. 3, k \in 0 .. 3, ae \in BOOLEAN}
+        q == SetToSeq(combos)
+    IN  [j \in DOMAIN q |-> [base |-> DivBase[q[j][1]], R |-> q[j][2], k |-> q[j][3], ae |-> q[j][4]]]
+    \o (IF Quick THEN <<>> ELSE
+        LET c2 == SetToSeq({<<R, k, ae>> : R \in 1 .. 2, k \in 0 .. 3, ae \in BOOLEAN}) IN
+        [j \in DOMAIN c2 |-> [base |-> GridObj(3, 3), R |-> c2[j][1], k |-> c2[j][2], ae |-> c2[j][3]]])
+DivRec(o) ==
+    LET g == o.base.graph  roots == RootsOpt(g.n, o.R, o.k)  nl == o.R ^ g.n IN
+    [family |-> "div", obj |-> o.base, R |-> o.R, rootsopt |-> o.k, roots |-> RootsJson(roots),
+     allow_empty |-> o.ae,
+     ok |-> [L \in 1 .. nl |-> DivOK(g, Lab(g.n, o.R, L - 1), o.R, roots, o.ae)]]
+
+(* C07: variable groups.  A set partition is exported as its restricted-growth string. *)
+RECURSIVE RGS(_, _)
+(* all restricted growth strings of length n that extend prefix s (block ids from 0) *)
+MaxOf(s) == IF s = <<>> THEN -1 ELSE LET S == {s[i] : i \in DOMAIN s} IN CHOOSE x \in S : \A y \in S : y <= x
+RGS(n, s) == IF Len(s) = n THEN {s}
+             ELSE UNION {RGS(n, Append(s, b)) : b \in 0 .. MaxOf(s) + 1}
+PartOf(n, r) == {{v \in 0 .. n - 1 : r[v + 1] = b} : b \in {r[i] : i \in DOMAIN r}}
+(* size specifications: kind, plus per-vertex optional sizes *)
+SizeSpec(n, k) ==
+    CASE k = 0 -> [kind |-> "none",   sz |-> [v \in 0 .. n - 1 |-> {}]]
+      [] k = 1 -> [kind |-> "const1", sz |-> [v \in 0 .. n - 1 |-> {1}]]
+      [] k = 2 -> [kind |-> "const2", sz |-> [v \in 0 .. n - 1 |-> {2}]]
+      [] k = 3 -> [kind |-> "shared", sz |-> [v \in 0 .. n - 1 |-> {}]]
+      [] k = 4 -> [kind |-> "list",   sz |-> [v \in 0 .. n - 1 |-> IF v = 0 THEN {2} ELSE {}]]
+      [] k = 5 -> [kind |-> "list",   sz |-> [v \in 0 .. n - 1 |-> IF v = n - 1 THEN {1} ELSE IF v = 0 THEN {3} ELSE {}]]
+      [] k = 6 -> [kind |-> "list",   sz |-> [v \in 0 .. n - 1 |-> IF v % 2 = 0 THEN {2} ELSE {}]]
+SzJson(n, sz) == [v \in 1 .. n |-> IF sz[v - 1] = {} THEN -1 ELSE CHOOSE x \in sz[v - 1] : TRUE]
+GroupBase == SmallGraphs(IF Quick THEN 3 ELSE 4) \o
+             << GraphObj("path4", PathG(4)), GraphObj("cycle4", CycleG(4)), GraphObj("star4", StarG(4)),
+                GraphObj("path5", PathG(5)), GraphObj("cycle5", CycleG(5)),
+                GraphObj("digon+tail", G(3, <<<<0, 1>>, <<0, 1>>, <<1, 2>>>>)) >> \o
+             Grids(IF Quick THEN {<<1, 1>>, <<1, 3>>, <<2, 2>>, <<2, 3>>} ELSE {<<1, 1>>, <<1, 2>>, <<1, 3>>, <<3, 1>>, <<2, 2>>, <<2, 3>>, <<3, 2>>})
+GroupObjs == LET q == SetToSeq({<<i, k>> : i \in DOMAIN GroupBase, k \in 0 .. 6})
+             IN  [j \in DOMAIN q |-> [base |-> GroupBase[q[j][1]], k |-> q[j][2]]]
+GroupRec(o) ==
+    LET g == o.base.graph  spec == SizeSpec(g.n, o.k)
+        rs == SetToSeq(RGS(g.n, <<>>)) IN
+    [family |-> "groups", obj |-> o.base, sizekind |-> spec.kind, sizes |-> SzJson(g.n, spec.sz),
+     parts |-> rs,
+     ok |-> [j \in DOMAIN rs |->
+               IF spec.kind = "shared" THEN RealisableShared(g, PartOf(g.n, rs[j]))
+               ELSE Realisable(g, PartOf(g.n, rs[j]), spec.sz)]]
+
+(* C07 borders: pattern bit e-1 says whether edge e is a border *)
+InnerObj(h, w) == Obj("inner", "inner", h, w, Lattice(h - 1, w - 1))     \* cells are the points of the dual frame
+BorderBase == SmallGraphs(IF Quick THEN 3 ELSE 4) \o
+              << GraphObj("path4", PathG(4)), GraphObj("cycle4", CycleG(4)), GraphObj("cycle5", CycleG(5)),
+                 GraphObj("digon+tail", G(3, <<<<0, 1>>, <<0, 1>>, <<1, 2>>>>)) >> \o
+              (LET q == SetToSeq(IF Quick THEN {<<1, 1>>, <<1, 3>>, <<2, 2>>, <<2, 3>>}
+                                 ELSE {<<1, 1>>, <<1, 2>>, <<1, 3>>, <<3, 1>>, <<2, 2>>, <<2, 3>>, <<3, 2>>, <<3, 3>>})
+               IN [i \in DOMAIN q |-> InnerObj(q[i][1], q[i][2])])
+BorderObjs == LET q == SetToSeq({<<i, k>> : i \in DOMAIN BorderBase, k \in {0, 1, 2, 4, 5, 6}})
+              IN  [j \in DOMAIN q |-> [base |-> BorderBase[q[j][1]], k |-> q[j][2]]]
+BorderRec(o) ==
+    LET g == o.base.graph  m == Len(g.edges)  spec == SizeSpec(g.n, o.k) IN
+    [family |-> "borders", obj |-> o.base, sizekind |-> spec.kind, sizes |-> SzJson(g.n, spec.sz),
+     ok |-> [p \in 1 .. 2 ^ m |-> BorderOK(g, [e \in 1 .. m |-> Bit(p - 1, e - 1)], spec.sz)]]
+
+(* C10: crossable loop / path on a frame.  Segments are the lattice edges (in Lattice order);  *)
+(* a segment is horizontal iff its endpoints are consecutive point numbers.                     *)
+Horizontal(g, e) == g.edges[e][2] = g.edges[e][1] + 1
+Joined(g, A, s, t) ==
+    /\ s # t
+    /\ \E p \in Ends(g, s) \cap Ends(g, t) :
+          \/ Deg(g, A, p) = 2
+          \/ (Deg(g, A, p) = 4 /\ Horizontal(g, s) = Horizontal(g, t))
+RECURSIVE Strand(_, _, _)
+Strand(g, A, S) == LET N == {t \in A \ S : \E s \in S : Joined(g, A, s, t)}
+                   IN  IF N = {} THEN S ELSE Strand(g, A, S \cup N)
+Crossable(g, A, cyc) ==
+    A = {} \/ ( /\ \A p \in V(g) : Deg(g, A, p) \in (IF cyc THEN {0, 2, 4} ELSE {0, 1, 2, 4})
+                /\ Strand(g, A, {CHOOSE s \in A : TRUE}) = A )
+CrossObjs ==
+    LET dims == IF Quick THEN {<<0, 0>>, <<0, 1>>, <<1, 0>>, <<1, 1>>, <<1, 2>>, <<2, 1>>, <<2, 2>>}
+                ELSE {<<0, 0>>, <<0, 1>>, <<1, 0>>, <<0, 2>>, <<1, 1>>, <<1, 2>>, <<2, 1>>, <<2, 2>>, <<1, 3>>, <<3, 1>>}
+        q == SetToSeq({<<d, c>> : d \in dims, c \in BOOLEAN})
+    IN  [i \in DOMAIN q |-> [base |-> FrameObj(q[i][1][1], q[i][1][2]), cyc |-> q[i][2]]]
+CrossRec(o) ==
+    LET g == o.base.graph  m == Len(g.edges)  np == 2 ^ m IN
+    [family |-> "cross", obj |-> o.base, single_cycle |-> o.cyc,
+     ok     |-> [p \in 1 .. np |-> Crossable(g, ESet(m, p - 1), o.cyc)],
+     passed |-> [p \in 1 .. np |-> Mask(Touched(g, ESet(m, p - 1)))],
+     cross  |-> [p \in 1 .. np |-> Mask({v \in V(g) : Deg(g, ESet(m, p - 1), v) = 4})]]
+
 -----------------------------------------------------------------------------
 Objs == CASE Family = "conn"    -> ConnObjs
           [] Family = "notseg"  -> NotSegObjs
           [] Family = "acyclic" -> AcyclicObjs
           [] Family = "cycle"   -> CycleObjs
+          [] Family = "div"     -> DivObjs
+          [] Family = "groups"  -> GroupObjs
+          [] Family = "borders" -> BorderObjs
+          [] Family = "cross"   -> CrossObjs
 Rec(o) == CASE Family = "conn"    -> ConnRec(o)
             [] Family = "notseg"  -> NotSegRec(o)
             [] Family = "acyclic" -> AcyclicRec(o)
             [] Family = "cycle"   -> CycleRec(o)
+            [] Family = "div"     -> DivRec(o)
+            [] Family = "groups"  -> GroupRec(o)
+            [] Family = "borders" -> BorderRec(o)
+            [] Family = "cross"   -> CrossRec(o)
 
 ObjSeq == TLCEval(Objs)
 
